@@ -33,3 +33,46 @@ impl<'a> Reader<&'a [u8]> for LimitReader<'a> {
         let mut a = [0u8; 8]; a.copy_from_slice(&self.data[..8]); self.data = &self.data[8..]; u64::from_be_bytes(a)
     }
 }
+
+/// A conforming reader whose storage has a seam `seam` octets ahead (a ring buffer across its wrap-around): a `bytes()`
+/// request that would straddle the seam is refused although the octets are there.  Counterpart of `SeamReader` in
+/// coq/theories/Model/Show.v.
+#[derive(Clone, Copy)]
+pub struct SeamReader<'a> {
+    pub data: &'a [u8],
+    pub seam: Option<usize>,
+}
+
+impl<'a> SeamReader<'a> {
+    pub fn new(data: &'a [u8], seam: usize) -> Self { SeamReader { data, seam: if seam == 0 { None } else { Some(seam) } } }
+    fn adv(&mut self, n: usize) {
+        self.data = &self.data[n..];
+        self.seam = match self.seam { Some(x) if n < x => Some(x - n), _ => None };
+    }
+}
+
+impl<'a> Reader<&'a [u8]> for SeamReader<'a> {
+    fn is_empty(&self) -> bool { self.data.is_empty() }
+    fn len(&self) -> usize { self.data.len() }
+    fn subreader(&mut self, length: usize) -> Self {
+        let r = SeamReader { data: &self.data[..length], seam: match self.seam { Some(x) if x < length => Some(x), _ => None } };
+        self.adv(length);
+        r
+    }
+    fn skip_bytes(&mut self, length: usize) { let _ = &self.data[length..]; self.adv(length); }
+    fn bytes(&mut self, length: usize) -> Option<&'a [u8]> {
+        if length > self.data.len() { return None; }
+        if let Some(x) = self.seam { if x < length { return None; } }
+        let r = &self.data[..length];
+        self.adv(length);
+        Some(r)
+    }
+    unsafe fn read_u8_unchecked(&mut self) -> u8 { let v = self.data[0]; self.adv(1); v }
+    unsafe fn read_u16_be_unchecked(&mut self) -> u16 { let v = u16::from_be_bytes([self.data[0], self.data[1]]); self.adv(2); v }
+    unsafe fn read_u32_be_unchecked(&mut self) -> u32 {
+        let v = u32::from_be_bytes([self.data[0], self.data[1], self.data[2], self.data[3]]); self.adv(4); v
+    }
+    unsafe fn read_u64_be_unchecked(&mut self) -> u64 {
+        let mut a = [0u8; 8]; a.copy_from_slice(&self.data[..8]); self.adv(8); u64::from_be_bytes(a)
+    }
+}
